@@ -17,7 +17,7 @@ LEVEL = "exploration"
 RULE = (
     "generated projects without externals inside what run_inline documents (module-level test_* functions, no "
     "fixtures / parametrize): 1-2 files, 1-4 sites per file over all five operations with noisy previous "
-    "values or none, asserting bodies (failing tests abort), tests that raise or fail before / after the other tests of their file, values needing HasRepr, and "
+    "values or none, asserting bodies (failing tests abort), tests that raise or fail before / after the other tests of their file, bounds whose stored value cannot be ordered against the observed one, values needing HasRepr, and "
     "fix+trim pending inside one container; every category subset F. Three-way differential: "
     "Example(files).run_inline(['--inline-snapshot=F']), Example(files).run_pytest(['--inline-snapshot=F']) and a "
     "real `python -m pytest --inline-snapshot=F` session in a directory holding the same files: the changed "
@@ -56,7 +56,10 @@ def _case(draw, tier):
                                          places=("assert", "var", "module", "helper", "lambda")))
         files.append({"prog": prog, "raise_at_end": draw(st.integers(0, 4)) == 0,
                       # a test that fails before every other test of the file runs
-                      "fail_first": draw(st.sampled_from([None, None, "raise", "assert"]))})
+                      "fail_first": draw(st.sampled_from([None, None, "raise", "assert"])),
+                      # a bound whose stored value cannot be ordered against the observed one (a changed type),
+                      # followed by another pending snapshot in the same test
+                      "unorderable": draw(st.sampled_from([None, None, "le", "ge", "le_loop"]))})
     # the helpers promise to be independent of a CI variable in the calling environment
     # a [tool.black] section that changes how fragments are formatted; consecutive cases of one harness
     # process run under different options, like a developer's test suite that calls run_inline for several
@@ -83,6 +86,10 @@ def render(case):
         if f.get("fail_first"):
             stmt = "raise ValueError('first')" if f["fail_first"] == "raise" else "assert 1 == 2"
             src = src.replace("def test_0():", f"def test_00_fails_first():\n    {stmt}\n\n\ndef test_0():", 1)
+        if f.get("unorderable"):
+            body = {"le": "    assert 5 <= snapshot('a')\n", "ge": "    assert 'b' >= snapshot(3)\n",
+                    "le_loop": "    for v in (1, 5, 2):\n        assert v <= snapshot('a')\n"}[f["unorderable"]]
+            src += f"\ndef test_zy_unorderable():\n{body}    assert 2 == snapshot(1)\n    assert [1, 2] == snapshot()\n"
         if f["raise_at_end"]:
             src += "\ndef test_zz_raises():\n    raise ValueError('boom')\n"
         out[f"test_f{i}.py"] = src
